@@ -8,12 +8,17 @@ Traces == JsonDeserialize(IOEnv.TRACE_FILE)
 VARIABLES tid, l
 vars == <<tid, l>>
 AsHeap(s) == [n \in 1..Len(s) |-> s[n]]
+(* sets have no order: their members are compared as a set (the positional keys 0..n-1 carry no meaning there) *)
+Members(nd) == {<<nd.items[i].s, nd.items[i].v>> : i \in 1..Len(nd.items)}
+NodeEq(a, b) == IF a.kind \in {"set", "frozenset"}
+                THEN a.kind = b.kind /\ Len(a.items) = Len(b.items) /\ Members(a) = Members(b)
+                ELSE a = b
 Why(r) ==
   LET h == AsHeap(r.heap)  R == Rebuild(r.prog, h)  live == Live(r.prog, h) IN
   IF ~WellFormed(h) THEN "harness-built-an-ill-formed-heap"
   ELSE IF r.error # "" THEN "remap-raised"
   ELSE IF {r.live[i] : i \in 1..Len(r.live)} # live THEN "different-nodes-attached-to-the-result"
-  ELSE IF \E n \in live : r.result[n] # R[n] THEN "rebuilt-node-differs"
+  ELSE IF \E n \in live : ~NodeEq(r.result[n], R[n]) THEN "rebuilt-node-differs"
   ELSE IF \E n \in DOMAIN h : r.enters[n] # 1 \/ r.exits[n] # 1 THEN "enter-or-exit-not-once-per-node"
   ELSE IF ~r.input_unchanged THEN "input-mutated"
   ELSE ""
